@@ -535,6 +535,53 @@ def bip49Address (env : Env) (net : Network) (sec : Bytes) : AddrOut := do
 /-- `BIP84Node.address` -/
 def bip84Address (env : Env) (net : Network) (sec : Bytes) : AddrOut := forP2pkhWit env net (env.hash160 sec)
 
+/-! ## one `parseable_str` object handed to several parsers in turn
+
+`parseable_str(s)` returns `s` itself when it already is one, so when the same object goes through several networks'
+parsers they share one `_cache` dict.  The code keys the entries by *decoder* only (`"b58_double_sha256"`, `"bech32"`, …:
+the C11 model `Model/ParseableStr.lean` has that dict as explicit state and proves it transparent,
+`C11_pstr_cache_transparent`); no entry depends on the network that asked.  Here the two decoder slots the address and
+key parsers read are the state, and a parser run on the shared object sees the decoders *through* them.
+
+Which slots a call fills depends on which decoders it reached; the model fills both after every call.  That is an
+over-approximation of the dict's key set only: a filled slot holds the decoder's own answer (`PsCache.Ok`), so the
+answers — all that is observable — do not depend on it. -/
+
+structure PsCache where
+  /-- `_cache["b58_double_sha256"]`, if present -/
+  b58 : Option (Option Bytes)
+  /-- `_cache["bech32"]`, if present -/
+  bech : Option (Option (String × Nat × Bytes × BechSpec))
+
+def PsCache.empty : PsCache := ⟨none, none⟩
+
+/-- the decoders as a parser sees them on the shared object `text` -/
+def cachedEnv (env : Env) (text : String) (c : PsCache) : Env :=
+  { env with
+    b58cDec := fun s => if s = text then (match c.b58 with | some v => v | none => env.b58cDec s) else env.b58cDec s
+    bech32Parse := fun s => if s = text then (match c.bech with | some v => v | none => env.bech32Parse s) else env.bech32Parse s }
+
+/-- the dict after a call: an absent slot is computed by the decoder, a present one is left alone -/
+def PsCache.fill (env : Env) (text : String) (c : PsCache) : PsCache :=
+  ⟨some (match c.b58 with | some v => v | none => env.b58cDec text),
+   some (match c.bech with | some v => v | none => env.bech32Parse text)⟩
+
+/-- a list of parser calls (`step e σ` = the call described by `σ`, run with decoders `e`) on one shared object -/
+def historyRun {σ α : Type} (env : Env) (text : String) (step : Env → σ → α) : PsCache → List σ → List α
+  | _, [] => []
+  | c, s :: ss => step (cachedEnv env text c) s :: historyRun env text step (c.fill env text) ss
+
+/-- the address-family entry points by name -/
+def parseAddrEntry (env : Env) (net : Network) (entry : String) (s : String) : Option ParseOut :=
+  match entry with
+  | "address" => some (parseAddress env net s)
+  | "p2pkh" => some (parseP2pkh env net s)
+  | "p2sh" => some (parseP2sh env net s)
+  | "p2pkh_segwit" => some (parseP2pkhSegwit env net s)
+  | "p2sh_segwit" => some (parseP2shSegwit env net s)
+  | "p2tr" => some (parseP2tr env net s)
+  | _ => none
+
 /-! ## key objects over time: the `hash160` caches of `Key` and the copying methods
 
 `Key.__init__` starts with `_hash160_compressed = _hash160_uncompressed = None`; `Key.hash160(is_compressed)` fills the
